@@ -11,7 +11,7 @@ RULE = ('functions gamma rgamma loggamma factorial fac2 beta binomial rf ff gamm
         '9 complex directions x moduli, the strip left of the origin) x precisions {10,53,+1 rotating; thorough 10..1000}.  The value at p must be '
         'within 2^(8-p) relative (modulus) of the value at 3p+200 bits, which must itself agree with the value at 2p+100 bits to 2^(-p-60) '
         '(else undecided).  Anchors at the top rung: gamma(z+1)=z*gamma(z), reflection, exp(loggamma)=gamma, psi(z+1)=psi(z)+1/z, '
-        'beta*gamma(a+b)=gamma(a)gamma(b), G(z+1)=gamma(z)G(z).  rgamma at poles is exactly 0; gamma at poles raises.  non-trivial = decided cases; distinct by construction')
+        'beta*gamma(a+b)=gamma(a)gamma(b), G(z+1)=gamma(z)G(z).  rgamma at poles is exactly 0; gamma at poles raises; gamma, rgamma, loggamma must return at every non-real lattice point (incl. exactly imaginary arguments far below 2^-p).  non-trivial = decided cases; distinct by construction')
 ASSUMPTIONS = ['O-ladder: an error common to all precisions is only caught by the identity anchors', 'exact arguments are dyadic rationals']
 BOUNDS = {'quick': '3 precisions', 'thorough': '8 precisions incl. 400 and 1000'}
 
@@ -70,16 +70,20 @@ def nonpole(ts):
 smallint = lambda p: [2, 5, -3]
 few_real = lambda p: [R(1, 2), R(5, 2), R(-7, 4), R(21, 2), R(3, 1 << 12)]
 few_cplx = lambda p: [(R(1, 2), R(3, 4)), (R(-5, 2), R(1, 4)), (R(3), R(-10))]
+# exactly imaginary arguments far below 2^-p, and tiny arguments with both parts (the z -> 0 expansions are keyed on the binary magnitudes of the parts)
+tiny_imag = lambda p: [(grid.fzero, grid.mk(0, 3, -p - 40)), (grid.fzero, grid.mk(1, 1, -2000)), (grid.fzero, grid.mk(0, 1, -p - 21)), (grid.mk(0, 1, -p - 60), grid.mk(0, 1, -p - 25)), (grid.mk(1, 1, -3 * p), grid.mk(0, 5, -2 * p))]
 
 TABLE = [
     dict(fn='gamma', args=one(lambda p: nonpole(args_real(p, 'R', 12))), anchors=[('gamma(z+1)=z*gamma(z)', a_rec), ('reflection', a_refl)]),
-    dict(fn='gamma', args=one(lambda p: args_complex(p, 'C', 5)), anchors=[('gamma(z+1)=z*gamma(z)', a_rec)]),
+    dict(fn='gamma', args=one(lambda p: args_complex(p, 'C', 5) + tiny_imag(p)), anchors=[('gamma(z+1)=z*gamma(z)', a_rec)], must_return=True),
     dict(fn='rgamma', args=one(lambda p: args_real(p, 'R', 12))),
-    dict(fn='rgamma', args=one(lambda p: args_complex(p, 'C', 5))),
+    dict(fn='rgamma', args=one(lambda p: args_complex(p, 'C', 5) + tiny_imag(p)), must_return=True),
     dict(fn='loggamma', args=one(lambda p: nonpole(args_real(p, 'R', 30))), anchors=[('exp(loggamma)=gamma', a_explog)]),
-    dict(fn='loggamma', args=one(lambda p: args_complex(p, 'C', 12)), anchors=[('exp(loggamma)=gamma', a_explog)]),
+    dict(fn='loggamma', args=one(lambda p: args_complex(p, 'C', 12) + tiny_imag(p)), anchors=[('exp(loggamma)=gamma', a_explog)], must_return=True),
     dict(fn='factorial', args=one(lambda p: [t for t in args_real(p, 'R', 10) if not (t[0] and t[2] >= 0)])),
-    dict(fn='fac2', args=one(lambda p: [t for t in args_real(p, 'Rsmall') if not t[0]] + [R(-1, 2), R(-5, 2), R(15, 2), R(41)])),
+    dict(fn='fac2', args=one(lambda p: [t for t in args_real(p, 'Rsmall') if not t[0]] + [R(-1, 2), R(-5, 2), R(15, 2), R(41), R(4001, 4)] +
+                               # large non-integers (only where the argument fits the working precision: the function rounds its argument first)
+                               ([R(200000001, 4), R(120000003, 4), R(160000003, 2), R(-40000003, 2)] if p >= 32 else []))),
     dict(fn='digamma', args=one(lambda p: nonpole(args_real(p, 'R', 30))), anchors=[('psi(z+1)=psi(z)+1/z', a_psi)]),
     dict(fn='digamma', args=one(lambda p: args_complex(p, 'C', 12))),
     dict(fn='polygamma', args=pairs(lambda p: [1, 2, 3], lambda p: nonpole(args_real(p, 'R', 10))[::3] + few_cplx(p))),
